@@ -51,7 +51,9 @@ THEOREMS = [P + t for t in (
      # identifier holes: the verdict of the lint is independent of the identifiers; every template x argument shape for ALL identifiers
      "lint_verdict_independent_of_identifiers", "bound_ok_independent_of_identifiers", "scoping_follows_cypher",
      "clause_structure_checked", "lint_rejects_empty_entry", "lint_rejects_leading_empty_entry", "empty_map_entries_rejected", "vocabulary_fills_holes", "hole_templates_clean_scalar", "hole_templates_clean_maps",
-     "hole_templates_clean", "wellformed_all_identifiers", "wellformed_all_identifiers_all_values"]
+     "hole_templates_clean", "wellformed_all_identifiers", "wellformed_all_identifiers_all_values",
+     # histories of calls on one handle / against one database (round 7)
+     "history_texts_independent_of_state", "history_data_independent_except_listed", "state_in_identifier_position_counterexample"]
     + [s + "_value_free" for s in VALUE_FREE_SITES]
     + [s + "_value_dependent_counterexample" for s in VALUE_DEPENDENT_SITES])]
 TRUSTED_BASE = [
@@ -81,6 +83,15 @@ TRUSTED_BASE = [
     "(labels, property dicts, neighbour lists, GraphID re-homing), primitives without a NetworkX counterpart (the CBM's own queries, "
     "_validate_graph) answer with the permissive records; the world is one small aggregate (8 nodes, label+capacity delegations for two "
     "delegation ids, a stitch node), not an enumeration of graphs",
+    "round 7: the statements of the REAL primitives under the store are answered from the store too (Shadow.server_view: a statement whose "
+    "parameters name a node / a link of the store gets that node's labels and properties / that link's type and properties; no Cypher is "
+    "interpreted, every other statement gets the permissive record), so that what a primitive returns to an enclosing primitive or keeps "
+    "on the graph handle / in a class-level table derives from what the database holds; Class / Type / Model / Layer / StitchNode strings "
+    "with payloads exist in the server's answers only (the NetworkX side keeps the benign string: it derives labels from Class and the "
+    "library parses the others); histories of calls on ONE handle make up arguments by parameter name (a primitive with a parameter of "
+    "another name is not part of them); Lean: histories are lists of (site, state -> environment, state -> state) over an arbitrary state "
+    "type - that the library's texts have no other source than the call's own parameters is the translator's restriction (any other "
+    "source is an extraction error) and the one-handle / two-handle histories of the oracle",
     "grouping of requested components into (type, model, count) rows is done by the harness mirroring neo4j_cbm.py:285-294 and is "
     "checked only through the text comparison; str() of non-string property values is taken from Python",
 ]
@@ -99,7 +110,11 @@ RULE = ("(call site, identifier choice, value assignment): every backend call x 
         "run() call site of the five modules (harness's own ast scan) must be in the generated table and reached; falsy values (None, '', 0, "
         "False, []) at every position of every mapping argument of 1-3 entries; every public method of the six Neo4j-backed classes incl. "
         "their base classes (61 operations, coverage obligation over inspect.getmembers) on a stored aggregate x 10 roles of stored strings "
-        "x payloads; every identifier-taking call as 1st/2nd/3rd call after every other call with the same identifier (histories)")
+        "x payloads; every identifier-taking call as 1st/2nd/3rd call after every other call with the same identifier (histories); "
+        "round 7: 15 roles (5 of them strings held in Class / Type / Model / Layer / StitchNode properties, distinct from the labels), and "
+        "histories on ONE graph handle (generic, ASM, CBM, ADM handles; reader on a second handle of the same graph): each of 8 readers "
+        "(property / neighbourhood reads, existence check, add, update) before each of the 31-37 statement-building methods of the handle, "
+        "and every such method after every other one")
 
 # ------------------------------------------------------------------------------------------------------------
 # the property's lint, written independently of Model/Cypher.lean from the same specification
@@ -1707,6 +1722,7 @@ def store_prims():
 
 
 STORE_PAYLOADS = ["p'\"\\", "p`{x} $graphId"]
+ONE_HANDLE_DIRECT = {"graph-id": "graph_id", "node-id": "node_id"}
 
 
 def store_check(name, role, payload, base, res):
@@ -1720,6 +1736,9 @@ def store_check(name, role, payload, base, res):
     sites = [site_of(w) for w in where]
     case = {"kind": "store", "op": name, "role": role, "payload": payload}
     meth = name.split(":")[0]
+    if name.endswith(":one-handle"):
+        # one signature per call site and role, whichever reader came first (the case names the history)
+        meth = meth.split(".")[0] + ".handle-history"
     if sorted(sites) == sorted(sites0) and sites != sites0:
         # same statements in another order: the library iterates over SETS of stored strings (delegation ids, common node ids), whose
         # order follows the strings' hashes.  Compared per call site as multisets of texts-without-literals.
@@ -1742,8 +1761,12 @@ def store_check(name, role, payload, base, res):
                       "(same graph shape, same identifiers)", case, observed=sites, expected=sites0)
         return 1
     for site, kind, obs, exp in diff_runs(rec0, sites0, rec, known):
-        res.violation("C19:%s:%s:%s.%s" % (site, kind, meth, role), WHAT[kind] + " (a %s the database holds, through %s)" % (role, meth),
-                      case, observed=obs, expected=exp)
+        sig = "C19:%s:%s:%s.%s" % (site, kind, meth, role)
+        if name.endswith(":one-handle") and role in ONE_HANDLE_DIRECT:
+            # the handle's own graph id and the node id are direct arguments of every call of these histories: a primitive whose
+            # text carries them is reported under the signature the argument sweep reports it with
+            sig = "C19:%s:%s:%s" % (site, kind, ONE_HANDLE_DIRECT[role])
+        res.violation(sig, WHAT[kind] + " (a %s the database holds, through %s)" % (role, meth), case, observed=obs, expected=exp)
     return 1
 
 
